@@ -3,6 +3,7 @@ from __future__ import annotations
 
 import ast
 import os
+import re
 
 import z3
 
@@ -373,6 +374,74 @@ def comment_token_language(rep: C.Report) -> None:
         ob.detail += f"{type(e).__name__}: {e}"
 
 
+def nowiki_token_language(rep: C.Report) -> None:
+    """Ob10: the pass that saves paired nowiki bodies takes, at each opening tag, exactly the text up to the FIRST closing tag:
+    shortest(L(pattern)) == '<nowiki' ws* '>' c '</nowiki' ws* '>' (tag names in any case) where no closing tag occurs
+    earlier.  z3 language equality (no length bound); if the pattern cannot be encoded (look-arounds) or differs, bodies that
+    merely *begin* like the closing tag are replayed."""
+    import z3
+
+    from vf import passes as PS
+    from vf import resym as R
+
+    ob = rep.add(C.Ob("Ob10 the paired-nowiki pass takes exactly the text up to the first closing tag (shortest-match language equals the nowiki grammar)", "E2 z3 regex (language equality of shortest matches, unbounded) + replay", ["core.py:Wtp.preprocess_text (paired nowiki pass)"], "all strings, no length bound"))
+    try:
+        tree = ast.parse(open(os.path.join(C.SRC, "core.py")).read())
+        fns = [f for q, f in AP.functions(tree) if q[-1] == "preprocess_text"]
+        ps = PS.passes(fns[0], tree) if len(fns) == 1 else []
+        paired = PS.find_pass(ps, ["<nowiki>x</nowiki>"], ["<nowiki/>"])
+        wit = None
+        if paired is None:
+            ob.detail += "paired nowiki pass not identified; "
+        else:
+            try:
+                Lp = R.fullmatch_lang(paired.pattern, paired.flags)
+                ws = R.to_z3(r"\s*")
+                opn = z3.Concat(R.to_z3("<nowiki", re.I), ws, z3.Re(">"))
+                cls = z3.Concat(R.to_z3("</nowiki", re.I), ws, z3.Re(">"))
+                anyplus = z3.Concat(R.ALLCH, R.ANYSTAR)
+                shortest = z3.Intersect(Lp, z3.Complement(z3.Concat(Lp, anyplus)))
+                # body followed by the closing tag, with no closing tag ending earlier
+                tail = z3.Intersect(z3.Concat(R.ANYSTAR, cls), z3.Complement(z3.Concat(R.ANYSTAR, cls, anyplus)))
+                A = z3.Concat(opn, tail)
+                x = z3.String("x")
+                for label, lhs, rhs in (("a saved span that is not a nowiki element up to its first closing tag", shortest, A), ("a nowiki element that is not saved as a whole", A, shortest)):
+                    sol = z3.Solver()
+                    sol.set("timeout", 60000)
+                    sol.add(z3.InRe(x, lhs), z3.Not(z3.InRe(x, rhs)), z3.InRe(x, R.NOMARK))
+                    r = str(sol.check())
+                    ob.queries += 1
+                    ob.paths += 1
+                    ob.conditions += 1
+                    if r == "unsat":
+                        ob.confirmed_conditions += 1
+                    elif r == "sat":
+                        wit = (label, R.z3str_to_py(sol.model().eval(x, model_completion=True).as_string()))
+                        break
+                    else:
+                        ob.detail += f"{label}: solver {r}; "
+            except R.Unsupported as e:
+                ob.detail += f"pattern not encodable ({e}); "
+        ob.samples.append({"pattern": paired.pattern if paired else None, "witness": wit})
+        if wit is None and not ob.detail and not C.distrust():
+            ob.verdict = C.DISCHARGED
+            return
+        gen0, _ = xh.prepare(H)
+        mod = xh.load(gen0)
+        bodies = ["use </nowikis> here: {{foo}}", "a</nowiki-end>''b''", "x</NoWikiX>[[l]]", "p</nowiki q {{{1}}}", "<", "</", "</nowik>{{t}}", "a<nowiki>b"]
+        if wit is not None and wit[1].lower().startswith("<nowiki") and "</nowiki" in wit[1].lower():
+            bodies.insert(0, wit[1][wit[1].index(">") + 1 : wit[1].lower().rindex("</nowiki")])
+        for c in bodies:
+            sig, bad, what = mod._api_nowiki(c)
+            if bad:
+                v = rep.violation(sig, what + (f" (z3 witness: {wit[0]}: {wit[1]!r})" if wit else ""), {"c": c})
+                ob.verdict = C.VIOLATED if v.known is None else C.KNOWN
+                return
+        ob.detail += "but nowiki bodies that begin like the closing tag stay inert -> inconclusive"
+    except Exception as e:  # noqa: BLE001
+        ob.detail += f"{type(e).__name__}: {e}"
+
+
 def finalize_fixpoint(rep: C.Report) -> None:
     """Ob7: _finalize_expand substitutes placeholders inside a loop that only ends when a pass changes nothing (unexpanded
     constructs put their arguments back verbatim, so each nesting level needs one more pass).  AST/E3 fact: the substitution call
@@ -435,6 +504,7 @@ def run(rep: C.Report) -> None:
     preprocess_order(rep)
     finalize_fixpoint(rep)
     comment_token_language(rep)
+    nowiki_token_language(rep)
 
 
 def replay(r: dict) -> int:
